@@ -178,6 +178,16 @@ theorem c_lex_expression_no_oob (buf : Bytes) (pos : Nat) (tok : CTok) :
     (scpiLex_ProgramExpression (st buf pos) tok).1.oob = false ∧ (scpiLex_ProgramExpression (st buf pos) tok).1.ub = false := by
   rw [scpiLex_ProgramExpression_ref]; exact ⟨rfl, rfl⟩
 
+/-- the block recogniser.  `state->pos += arbitraryBlockLength` may leave the buffer before the comparison with its end is
+made (the offset is an `Int`, nothing is read there): the generated text and the model carry the same out-of-range value -/
+theorem c_lex_block (buf : Bytes) (pos : Nat) (h : pos ≤ buf.length) (tok : CTok) :
+    scpiLex_ArbitraryBlockProgramData (st buf pos) tok = res buf (lexBlock buf pos) ∧ Agrees .block buf pos (lexBlock buf pos) :=
+  ⟨scpiLex_ArbitraryBlockProgramData_ref buf pos tok, Props.C13.block_spec buf pos h⟩
+theorem c_lex_block_no_oob (buf : Bytes) (pos : Nat) (tok : CTok) :
+    (scpiLex_ArbitraryBlockProgramData (st buf pos) tok).1.oob = false ∧
+    (scpiLex_ArbitraryBlockProgramData (st buf pos) tok).1.ub = false := by
+  rw [scpiLex_ArbitraryBlockProgramData_ref]; exact ⟨rfl, rfl⟩
+
 /-! ### kernel-evaluated examples on the generated text -/
 
 -- "1.5E+3 V;" (9 bytes) at offset 0: the number is 6 bytes long, the cursor stops before the space, nothing read outside
@@ -220,5 +230,14 @@ example : scpiLex_StringProgramData (st [39, 97, 39] 0) ⟨0, 0, 0⟩ = (st [39,
 -- `(@1` without ')' and `(@1)`
 example : scpiLex_ProgramExpression (st [40, 64, 49] 0) ⟨0, 0, 0⟩ = (st [40, 64, 49] 0, ⟨26, 0, 0⟩, 0) := by decide +kernel
 example : scpiLex_ProgramExpression (st [40, 64, 49, 41] 0) ⟨0, 0, 0⟩ = (st [40, 64, 49, 41] 4, ⟨16, 0, 4⟩, 4) := by decide +kernel
+-- "#13abc;" : the token describes the 3 payload bytes at offset 3, the return value the whole block
+example : scpiLex_ArbitraryBlockProgramData (st [35, 49, 51, 97, 98, 99, 59] 0) ⟨0, 0, 0⟩ =
+    (st [35, 49, 51, 97, 98, 99, 59] 6, ⟨13, 3, 3⟩, 6) := by decide +kernel
+-- "#210ab": 10 bytes announced, 2 present - the cursor would be at offset 14 of 6; incomplete: the rest is swallowed, no read there
+example : scpiLex_ArbitraryBlockProgramData (st [35, 50, 49, 48, 97, 98] 0) ⟨0, 0, 0⟩ = (st [35, 50, 49, 48, 97, 98] 6, ⟨26, 0, 0⟩, 0) := by
+  decide +kernel
+-- "#2" and "#": the buffer ends inside the length digits / right after '#'
+example : scpiLex_ArbitraryBlockProgramData (st [35, 50] 0) ⟨0, 0, 0⟩ = (st [35, 50] 2, ⟨26, 0, 0⟩, 0) := by decide +kernel
+example : scpiLex_ArbitraryBlockProgramData (st [35] 0) ⟨0, 0, 0⟩ = (st [35] 1, ⟨26, 0, 0⟩, 0) := by decide +kernel
 
 end ScpiVerif.Props.C13Gen
